@@ -74,6 +74,8 @@ func runC17(w *World) *Result {
 	r.NotDecided = "file-system state after sequences of operations; what read returns at run time; the argument-type guards of read/write/exists are decided under C06."
 	r.Rule("R-C08-quote", "C08's per-hole quoting rule restricted to WriteFile, ReadFile, Exists", 4)
 	r.Rule("R-C17-append", "append flag true selects >>, otherwise >; selector feeds the write line; echo without -n", 3)
+	r.Rule("R-C17-args", "driver evaluates path, data and append flag once, in order, as used values, then calls WriteFile / ReadFile / Exists", 3)
+	ProtoRule(w, r, "R-C17-args", func(n string) bool { return n == "Write" || n == "Read" || n == "Exists" })
 	b, err := BuildBackend(w, "bash")
 	if err != nil {
 		r.Bad("R-C17-append", "extract:bash", "-", err.Error())
@@ -227,6 +229,8 @@ func runC18(w *World) *Result {
 	r.Rule("R-C18-args", "argument holes individually and unconditionally double-quoted; literal program names quoted", 4)
 	r.Rule("R-C18-pipe", "stages joined by | in list order; driver appends stages in traversal order", 3)
 	r.Rule("R-C18-capture", "one $( ) assigned to a fresh helper; $? read in the next line; result order stdout, \"\", status", 3)
+	r.Rule("R-C18-driver", "every argument of every stage is evaluated once, in order, as a used value before the single AppCall", 1)
+	ProtoRule(w, r, "R-C18-driver", func(n string) bool { return n == "AppCall" })
 	for _, role := range []string{"bash", "batch"} {
 		b, err := BuildBackend(w, role)
 		if err != nil {
